@@ -31,6 +31,9 @@ type Prop struct {
 	Real, Stub []string
 	// Assumptions (evidence).
 	Assumptions []string
+	// RuntimeRandom marks properties whose runs depend on a source of randomness no seed controls
+	// (Go map iteration order inside goProbe): replays and minimisation steps are retried.
+	RuntimeRandom bool
 }
 
 // HarnessError marks a failure of the machinery (exit 2, never a violation).
@@ -360,8 +363,16 @@ func sortedKeys(m map[string]*VRec) []string { return sim.SortedKeys(m) }
 
 func minimise(t *testing.T, p *Prop, vr *VRec, class string, known []Known, budget time.Duration) {
 	still := func(vals []uint64) bool {
-		_, v := exec(t, p, sim.ReplayTape(vals), false, known)
-		return v != nil && v.Class() == class
+		n := 1
+		if p.RuntimeRandom {
+			n = 3
+		}
+		for i := 0; i < n; i++ {
+			if _, v := exec(t, p, sim.ReplayTape(vals), false, known); v != nil && v.Class() == class {
+				return true
+			}
+		}
+		return false
 	}
 	// the recorded tape must reproduce in-process first; otherwise keep it unminimised
 	if !still(vr.Tape) {
@@ -401,9 +412,10 @@ func replay(t *testing.T, p *Prop, res *WorkerResult, known []Known) {
 		}
 	}
 	tries := 1
-	if strings.Contains(rf.Clause, "runtime-random") {
-		tries = 3
+	if strings.Contains(rf.Clause, "runtime-random") || p.RuntimeRandom {
+		tries = 8
 	}
+	wantClass := rf.Property + "/" + rf.Clause + "/" + rf.Signature
 	for i := 0; i < tries; i++ {
 		tape := sim.ReplayTape(rf.Tape)
 		if len(rf.Tape) == 0 && rf.RunSeed != 0 {
@@ -411,6 +423,9 @@ func replay(t *testing.T, p *Prop, res *WorkerResult, known []Known) {
 		}
 		r, v := exec(t, p, tape, true, known2)
 		res.Evaluations++
+		if v != nil && v.Class() != wantClass && i < tries-1 {
+			continue // another outcome of the runtime-random choice: try again
+		}
 		if v != nil {
 			res.Violations = append(res.Violations, VRec{Property: p.ID, Clause: v.Clause, Signature: v.Signature, Detail: v.Detail, Tape: rf.Tape, Trace: r.Trace(), Count: 1})
 			fmt.Printf("REPLAY property=%s clause=%s signature=%q\n%s\n", p.ID, v.Clause, v.Signature, sim.Indent(v.Detail))
